@@ -153,6 +153,19 @@ KidsIffTracked == \A n \in 1..Len(S.nodes) :
                      S.nodes[n].kids # <<>> <=> \E i \in 1..Len(S.nodes[n].kids) : S.nodes[n].kids[i].trk
 \* C03: a stored gradient has its array's dimensions
 GradDims == \A n \in 1..Len(S.grad) : IsSome(S.grad[n]) => S.grad[n].x.d = S.nodes[n].t.d
+\* the linear forms of the store predicates agree with their definitions
+StoreFormsAgree ==
+  \A h \in Live(S) :
+     LET n == S.hd[h].n
+         adj == RefAdj(S, n, Ones(HandleT(S, h).d))
+         weak == WeakKids(S, n, adj)
+     IN \A m \in 1..n : MustStore(S, h, adj, m) = MustStoreW(S, h, adj, weak, m)
+\* the two forms of the reference adjoint (definition: gather; used by the validators: scatter) agree
+AdjFormsAgree ==
+  \A h \in Live(S) :
+     LET n == S.hd[h].n  d == HandleT(S, h).d
+         s1 == T(d, [i \in 1..Prod(d) |-> DInt(SeedVals(d)[i])])
+     IN RefAdj(S, n, s1) = RefAdjDef(S, n, s1)
 \* C17: the reference adjoint is linear in the seed (alpha = 2, beta = -3), for every live root
 ScaleT(t, c) == T(t.d, [k \in 1..Len(t.v) |-> DMul(DInt(c), t.v[k])])
 Lin(o1, o2) == IF o1.none THEN None ELSE Some(TAdd(ScaleT(o1.x, 2), ScaleT(o2.x, -3)))
